@@ -15,8 +15,9 @@ CLAIMED = {
         text=("Proof, for all inputs, of the per-function contracts that carry status fidelity inside larking: HTTPStatusCode and WSStatusCode "
               "are total over every uint32 code and equal the google.rpc.Code mapping table for 0..16 and the internal-error value otherwise "
               "(index obligations and table postconditions discharged); encodeGrpcMessage returns exactly the gRPC PROTOCOL-HTTP2 percent-encoding of "
-              "its argument for every string (inductive loop invariant over a recursive encoded-length spec function)."),
-        note=TRUST + "Not decided: what grpc-go / Twirp / WebSocket clients decode; the encError path is added as its contracts are discharged.",
+              "its argument for every string (inductive loop invariant over a recursive encoded-length spec function); encError and the HttpBody codec contain no reachable panic "
+              "(they answer with a plain-text fallback when the status cannot be marshalled)."),
+        note=TRUST + "Not decided: what grpc-go / Twirp / WebSocket clients decode, the Twirp code names (a map in genproto), the codec lookup in encError (Go map, assumed to hold every negotiable type).",
         ref="DESIGN.md section 5 C05"),
 }
 
@@ -44,12 +45,12 @@ CLAIMED["C06"] = dict(
     text=("Proof over the abstract byte stream, for all read schedules: the three stream codecs' ReadNext return buffers that are exactly a window of the "
           "stream (Buffered: nothing lost, duplicated or reordered), frame messages as specified (varint length / brace fold / fixed chunk), never return a partial "
           "message with an error, and report a clean io.EOF only when no message is in progress; WriteNext writes exactly the framed message; readAll conserves the body."),
-    note=TRUST + "io.Reader/io.Writer/io.ReadFull/protowire are assumed contracts (interface contract of Read: any 0<=n<=len(p) with any error). Not decided: WebSocket framing (gobwas/ws), HTTP/2 transport ordering, gRPC-web base64 flushing, the proxy's goroutines; streamHTTP.readMsg and the gRPC frame reader are added as their contracts are discharged.",
+    note=TRUST + "io.Reader/io.Writer/io.ReadFull/protowire are assumed contracts (interface contract of Read: any 0<=n<=len(p) with any error). Not decided: WebSocket framing (gobwas/ws), HTTP/2 transport ordering, gRPC-web base64 flushing, the proxy's goroutines; streamHTTP.readMsg and the gRPC frame reader are added as their contracts are discharged. Since then: streamHTTP.readMsg is proved against the StreamCodec interface contract (which all three codecs refine): message window, carry-over, no phantom message at a clean end, codec errors propagate; the gRPC frame reader/writer have partial contracts (slicing, frame window, truncated frame is an error, pooled buffers empty before use).",
     ref="DESIGN.md section 5 C06")
 CLAIMED["C08"] = dict(
     text=("Proof with a symbolic limit: every size check of the stream codecs, readAll and writeAll refuses only messages over the limit and accepts messages exactly at "
           "the limit; a returned message never exceeds the limit; 64-bit length prefixes (up to 2^64-1) cannot bypass the check."),
-    note=TRUST + "Not decided yet: the gRPC frame reader's post-decompression size and the WebSocket reader (their contracts are added when discharged); gzip internals.",
+    note=TRUST + "Also covered: gRPC RecvMsg checks the size after decompression, SendMsg refuses only replies over the send limit, serveGRPC has exactly the seven reviewed refusal sites (no size-based refusal before the handler). Not decided: the WebSocket reader (no limit exists there; gobwas/ws), gzip internals.",
     ref="DESIGN.md section 5 C08")
 CLAIMED["C09"] = dict(
     text=("No-panic and termination obligations (index/slice bounds, nil dereference, failed type assertion, explicit panic, negative make, callee preconditions, loop and recursion variants) "
@@ -63,6 +64,37 @@ CLAIMED["C17"] = dict(
           "and >= 2^63 prefixes are errors, and WriteNext emits varint(len) ++ payload (proto) or the payload (JSON, HttpBody)."),
     note=TRUST + "Assumed: io.Reader/io.ReadFull/io.Writer interface contracts, protowire.ConsumeVarint/AppendVarint (round-trip axiom). JSON frame leastness (the first balanced object) is not proved, only that the returned frame ends at a brace returning the depth to 0.",
     ref="DESIGN.md section 5 C17")
+
+CLAIMED["C04"] = dict(
+    text=("Partial proof: Accept / Accept-Encoding parsing is memory-safe and terminates for every header value; the negotiated content type (encoding) is always one of the offers "
+          "or the default ('identity' / none); NewMux offers only keys of the codec resp. compressor registry (so a negotiated encoding names a registered compressor); "
+          "writeAll refuses a unary reply iff it exceeds the send limit and otherwise writes it whole."),
+    note=TRUST + "Floats are reals. Not decided: that the body decodes to the reply (codec round trip inside protobuf-go), HttpBody passthrough bytes, gzip bytes, the RFC 7231 preference order among admissible offers, response_body resolution in addRule.",
+    ref="DESIGN.md section 5 C04")
+CLAIMED["C07"] = dict(
+    text=("Proof of the ordering facts that make path-bound fields authoritative: in serveHTTP the parameter list handed to the stream is queryParams ++ pathParams "
+          "(every path capture after every query parameter, element-wise; append modelled exactly), so with params.set's last-wins order no query parameter can replace a path capture."),
+    note=TRUST + "Assumed: protoreflect Set semantics (last write wins per field) and parseQueryParams returning a fresh slice; the body is decoded before params are applied (program order in RecvMsg, not a separate obligation).",
+    ref="DESIGN.md section 5 C07")
+CLAIMED["C11"] = dict(
+    text=("Partial proof (publication): DropConn stores the state without the connection exactly when the connection was known, and stores nothing otherwise; RegisterConn stores at most once and not at all when adding the connection fails."),
+    note=TRUST + "removeHandler/addConnHandler/pickMethodHandler bodies are abstracted (Go maps); reflection fetch, descriptor hashing and delivery to a backend are not decided.",
+    ref="DESIGN.md section 5 C11")
+CLAIMED["C12"] = dict(
+    text=("Proof of the sequential publication discipline only: registerService / RegisterConn / DropConn replace the routing state by exactly one store on the success path and none on any error path; "
+          "serveHTTP and serveGRPC load the state at most once per request; Mux.opts is never written after NewMux (scan of every store in the package)."),
+    note=TRUST + "Interleavings, the race detector's happens-before and the copy-on-write frame discipline of clone() are NOT decided (the generator drops goroutines and has no ownership logic); the argument that this discipline implies atomicity is on paper (DESIGN 5 C12).",
+    ref="DESIGN.md section 5 C12")
+CLAIMED["C16"] = dict(
+    text=("Partial proof: the template lexer is memory-safe and terminates on every string (mutual recursion measure), accepts every LITERAL segment including one-letter ones, "
+          "keeps at most 64 tokens; registerService stores the new routing state only on success, so a rejected registration leaves the published routes intact."),
+    note=TRUST + "Not decided: full grammar conformance of the emitted token sequence, addRule's token walk / field resolution / duplicate detection (its body is not under contract: nested variables and scalar body selectors are out of reach), body and response_body resolution.",
+    ref="DESIGN.md section 5 C16")
+CLAIMED["C18"] = dict(
+    text=("Partial proof (call counts and constructors): muxOptions.unary / stream invoke exactly one of interceptor and handler, once, on every path; inPayload / outPayload events carry the client flag, "
+          "payload length and wire length of their arguments; on every path of serveHTTP / serveGRPC the number of stats.Begin events equals the number of stats.End events (7 return sites violate this today: known findings)."),
+    note=TRUST + "Not decided: the generated gRPC glue invoking the interceptor, event ordering across handler-driven stream calls, that installing options never changes the outcome (a two-run equivalence).",
+    ref="DESIGN.md section 5 C18")
 
 NA = {
     "C03": "round trip through encoding/json, protojson, base64, gzip and protobuf reflection: larking's share is a kind-dispatch table whose every arm delegates to a dependency; a contract would axiomatise the libraries, not decide the code (DESIGN 5 C03)",
